@@ -100,6 +100,43 @@ def r10a(ctx, run):
                 srcs.add("slice-len-word@0")
     run.check(srcs == {"array-len-const", "slice-len-word@0"}, site, "length sources: %s" % sorted(srcs), FCE, "index-len", U.file, U.ln,
               "the length compared against must be the array's static length or the slice's word at offset 0; found sources %s in %s" % (sorted(srcs), show_chain(len_chain, 5)[:120]))
+    # a slice is { len @0, data pointer @ptr }: the length that is compared and the data pointer the element address is built from must be read from
+    # the SAME header address (after the extra pointer levels of auto-deref were chased)
+    loads = [c for c in cs if short(c.callee) == "load" and "cranelift" in c.callee and len(c.args) >= 5]
+    # the length load is the load nearest to the root of the compared length's chain (not a load further down its address chain)
+    def nearest_load(root):
+        q = [root]
+        while q:
+            n = q.pop(0)
+            if not isinstance(n, dict):
+                continue
+            if n.get("kind") == "call" and short(n.get("callee", "")) == "load" and len(n.get("args", [])) >= 5 and n["args"][4].get("kind") == "scalar" and str(n["args"][4].get("value")) == "0":
+                return n
+            if n.get("kind") == "call" and short(n.get("callee", "")) == "iconst":
+                continue
+            for v in n.values():
+                if isinstance(v, dict):
+                    q.append(v)
+                elif isinstance(v, list):
+                    q.extend(x for x in v if isinstance(x, dict))
+        return None
+    ln_node = nearest_load(len_chain)
+    len_loads = [c for c in loads if ln_node is not None and (c.callee, c.ln, c.bb) == (ln_node["callee"], ln_node.get("ln"), ln_node.get("bb"))]
+    data_loads = [c for c in loads if FA.chain_has_call(fn.chain_operand(c.args[4], depth=6), "bytes")]
+    if len_loads and data_loads:
+        def ident(c):
+            ch = fn.chain_operand(c.args[3], depth=8)
+            while ch.get("kind") in ("copy", "move") and isinstance(ch.get("of"), dict):
+                ch = ch["of"]
+            # a MIR local is identified by its number; anything else by its printed chain
+            return (ch.get("var") or ch.get("name"), ch.get("local") if ch.get("local") is not None else show_chain(ch, 6))
+        li, di = ident(len_loads[0]), ident(data_loads[0])
+        run.check(li == di, len_loads[0].site(), "slice length and data pointer are read from the same header address (%s)" % (li[0] or li[1][:40]), FCE, "index-len-same-header",
+                  len_loads[0].file, len_loads[0].ln,
+                  "the slice length compared by the bounds check is read from `%s` but the data pointer from `%s`: behind two or more pointers the check compares the index "
+                  "with something that is not the slice's length" % (li[0] or li[1][:60], di[0] or di[1][:60]))
+    else:
+        run.finding(FCE, "index-len-same-header", fn.file, lo, "cannot find the slice header loads of the Expr::Index arm (length loads %d, data-pointer loads %d)" % (len(len_loads), len(data_loads)))
     # accesses dominated by the check
     addr_calls = [c for c in cs if short(c.callee) == "iadd" and "cranelift" in c.callee]
     n_acc = 0
